@@ -276,6 +276,50 @@ def prog_callbacks_stop(how):
 """ % stop + TAIL, [Sym("rounds"), 12, Sym("b-finished"), 12, [1, 2, 3]])
 
 
+def prog_callbacks_escape(rounds):
+    # comparators and hash procedures that leave through a continuation captured outside the C call (guard, call/cc,
+    # with dynamic-wind on the way) in several threads at once: the escape may happen while another thread's nested VM is
+    # the innermost one
+    return ("(import (scheme base) (scheme write) (scheme process-context) (srfi 18) (srfi 95))\n" + """
+(define (slow n) (let lp ((i 0)) (if (< i n) (lp (+ i 1)) #t)))
+(define m (make-mutex)) (define winds 0)
+(define (note!) (mutex-lock! m) (set! winds (+ winds 1)) (mutex-unlock! m))
+(define (sort-worker id)
+  (lambda ()
+    (let lp ((k 0) (caught 0) (sorted 0))
+      (if (= k %d)
+          (list id caught sorted)
+          (let ((r (guard (e (#t 'caught))
+                     (sort (list 5 3 8 4 1 2 9 7 6)
+                           (lambda (a b) (slow 40)
+                             (if (and (= a 4) (odd? k))
+                                 (dynamic-wind (lambda () #f) (lambda () (raise 'boom)) note!)
+                                 (< a b)))))))
+            (if (eq? r 'caught) (lp (+ k 1) (+ caught 1) sorted)
+                (lp (+ k 1) caught (if (equal? r '(1 2 3 4 5 6 7 8 9)) (+ sorted 1) sorted))))))))
+(define ths (list (make-thread (sort-worker 1)) (make-thread (sort-worker 2)) (make-thread (sort-worker 3))))
+(for-each thread-start! ths)
+(define results (map thread-join! ths))
+(write (list 'sorters results 'winds winds))
+""" % rounds + TAIL, [Sym("sorters"), [[1, rounds // 2, rounds - rounds // 2], [2, rounds // 2, rounds - rounds // 2], [3, rounds // 2, rounds - rounds // 2]],
+                                  Sym("winds"), 3 * (rounds // 2)])
+
+
+def prog_callbacks_blocking_join():
+    # two threads whose comparators wait (thread-join!) for a third thread that is itself sorting: when the third
+    # thread's C call lies *below* a waiting comparator's on the C stack, nobody can return first
+    return ("(import (scheme base) (scheme write) (scheme process-context) (srfi 18) (srfi 95))\n" + """
+(define (slow n) (let lp ((i 0)) (if (< i n) (lp (+ i 1)) #t)))
+(define inner (make-thread (lambda () (sort (list 9 8 7) (lambda (a b) (slow 300) (< a b))))))
+(define (joiner)
+  (lambda () (sort (list 3 1 2) (lambda (a b) (let ((r (thread-join! inner))) (slow 50) (if (equal? r '(7 8 9)) (< a b) (error "bad join" r)))))))
+(define ths (list (make-thread (joiner)) (make-thread (joiner))))
+(thread-start! inner)
+(for-each thread-start! ths)
+(write (list 'joined (map thread-join! ths)))
+""" + TAIL, [Sym("joined"), [[1, 2, 3], [1, 2, 3]]])
+
+
 def programs(rng, tier):
     ps = [
         ("counter-2", prog_counter(2, 12)), ("counter-5", prog_counter(5, 8)),
@@ -286,6 +330,7 @@ def programs(rng, tier):
         ("sleepers", prog_sleepers(4, 3)), ("sleepy-condvar", prog_sleepy_condvar(4)),
         ("callbacks", prog_callbacks(6)),
         ("callbacks-terminate", prog_callbacks_stop("terminate")), ("callbacks-interrupt", prog_callbacks_stop("interrupt")),
+        ("callbacks-escape", prog_callbacks_escape(10)), ("callbacks-blocking-join", prog_callbacks_blocking_join()),
     ]
     return ps
 
@@ -328,7 +373,11 @@ def check(rep, tier, seed):
     quanta = [1, 2, 3, 5, 17, 100, 500]
     jobs = []
     for name, (text, exp) in progs:
-        jobs.append((name, exp, None))                       # default quantum: the reference behaviour
+        if name != "callbacks-blocking-join":                # (no step budget without a schedule: see below)
+            jobs.append((name, exp, None))                   # default quantum: the reference behaviour
+        if name == "callbacks-blocking-join":
+            jobs.append((name, exp, "list:500:500"))       # one schedule is enough to show the listed limitation
+            continue
         if name in ("callbacks-terminate", "callbacks-interrupt"):
             # the default quantum as an explicit schedule (so that the step budget applies), then coarse random slices
             jobs.append((name, exp, "list:500:500"))
@@ -348,6 +397,8 @@ def check(rep, tier, seed):
         env = {"CHIBI_VERIF_HEAPCHECK": 1, "CHIBI_VERIF_DEADLOCK": 1}
         if sched:
             env["CHIBI_VERIF_SCHED"] = sched
+        if name == "callbacks-blocking-join" and sched:
+            env["CHIBI_VERIF_MAXSLICES"] = 2000000
         if name in ("callbacks-terminate", "callbacks-interrupt") and sched:
             env["CHIBI_VERIF_MAXSLICES"] = 30000000    # a complete run needs about 4e6 quanta of 1 instruction
         if name == "callbacks" and sched:
